@@ -53,8 +53,14 @@ def gen_cases(ctx, label, n_inst, per_inst, only_domain):
         pool = dom if only_domain else (dom + [v for v in vs if not respects_upper(ast, v)][:max(1, len(dom) // 4)])
         if per_inst and len(pool) > per_inst:
             pool = rng.sample(pool, per_inst)
+        # one instance in three is asked about AFTER a solve of the same model object (the answer may depend on the
+        # instance and the assignment only, not on what an earlier solve left behind: closures, variable values)
+        pre = rng.choice(PRESOLVES) if it % 3 == 1 else None
         for v in pool:
-            yield dict(text=text, na=ast['na'], m=v, ast=ast)
+            d = dict(text=text, na=ast['na'], m=v, ast=ast)
+            if pre:
+                d['presolve'] = pre
+            yield d
 
 
 def greedy_vectors(ast, rng, k):
@@ -106,10 +112,20 @@ def gen_large(ctx, label):
                         yield dict(text=text, na=ast['na'], m=v[:i] + [0] + v[i + 1:], ast=ast, large=True)
 
 
+PRESOLVES = [['-pc', '-mincost', '1'], ['-pc', '-maxsize', '1'], ['-pc', '-stab', '-maxsize', '1'], ['-maxsize', '1'],
+             ['-pc', '-maxsize', '1', '-mincost', '2'], ['-stab', '-mincost', '1']]
+
+
 def run_checker(inp):
     from matchingproblems.solver import fileIO
     with impl.tmpfile(inp['text']) as path:
-        model = fileIO.import_model(path, impl.inst_opts(inp['na'], True))
+        if inp.get('presolve'):
+            from matchingproblems.solver.solver import Solver
+            s = Solver(['-f', path, '-na', str(inp['na']), '-twopl'] + list(inp['presolve']))
+            s.solve(msg=False)
+            model = s.model
+        else:
+            model = fileIO.import_model(path, impl.inst_opts(inp['na'], True))
     pa = []
     for i, p in enumerate(inp['m']):
         if p == 0:
@@ -153,10 +169,11 @@ class Checker(Relation):
                                                        C.czlist(inp['m'])))
 
     def key(self, inp):
-        return '%s|%d|%r' % (inp['text'], inp['na'], inp['m'])
+        return '%s|%d|%r|%r' % (inp['text'], inp['na'], inp['m'], inp.get('presolve'))
 
     def signature(self, inp, obs):
-        return {'relation': self.name, 'text': inp['text'], 'na': inp['na'], 'm': inp['m']}
+        return {'relation': self.name, 'text': inp['text'], 'na': inp['na'], 'm': inp['m'],
+                'presolve': inp.get('presolve')}
 
     def nontrivial(self, inp, obs):
         return inp['ast']['n1'] >= 2 and any(inp['m'])
